@@ -23,7 +23,8 @@ func init() {
 			"C15.6 every lifecycle callback is invoked in the function that performs the insert/remove it reports and only on the path where that insert/remove actually happened; " +
 			"C15.7 in CreateAllocation no return lies between arming the lifetime timer and publishing the allocation in the table, and the insert precedes the created-callback; " +
 			"C15.8 (=C04.2) every 5-tuple handed to the manager — including the teardown tuple after a stream connection ends — is built from the addresses of that very request/connection; " +
-			"C15.9 the bind-timeout of a peer TCP connection releases it through the allocation object it was registered on (captured), not through a lookup among the live allocations — which would miss a connection registered on an allocation that has ended.",
+			"C15.9 the bind-timeout of a peer TCP connection releases it through the allocation object it was registered on (captured), not through a lookup among the live allocations — which would miss a connection registered on an allocation that has ended; " +
+			"C15.10 a goroutine's completion signal cannot block for ever: goroutines that send on a channel local to the function that started them are matched by enough receives or buffer (cancel functions and close() never block).",
 		NotCovered: "'exactly once', counts at quiescence and goroutine drain are dynamic; what a relay generator or callback does internally.",
 		Run:        runC15,
 	})
@@ -44,6 +45,7 @@ func runC15(c *Ctx) {
 	// (the listener's address) names no allocation and the release silently does nothing
 	ruleRequestTuples(c, "C15.8")
 	ruleBindTimerReleasesByIdentity(c, "C15.9")
+	ruleGoroutineSignalsDoNotBlock(c, "C15.10")
 }
 
 // ---------------------------------------------------------------------------------
@@ -1854,5 +1856,157 @@ func ruleBindTimerReleasesByIdentity(c *Ctx, rule string) {
 	if n == 0 {
 		c.Anchor(rule, "bindTimer closure")
 		c.Bad(rule, "-", "bindTimer", "-", "no time.AfterFunc stored into tcpConnection.bindTimer: anchor gone")
+	}
+}
+
+// ruleGoroutineSignalsDoNotBlock (C15.10): "no goroutine outlives its owner". A function that
+// starts goroutines and waits for the first of them over a channel it made itself must leave
+// room for the others: every send of a started goroutine on that channel needs a receive of
+// its own or a buffer slot — cancel() and close() are idempotent and never block, a send is
+// neither. Counted statically: sends in function literals started with `go` (a `go` inside a
+// loop counts as many) against receives outside loops in the creator plus the capacity.
+func ruleGoroutineSignalsDoNotBlock(c *Ctx, rule string) {
+	w := c.W
+	c.Rule(rule, "for every channel made locally (make(chan T[, k]) with constant k) whose only users are its creator and function literals the creator starts with `go`: (number of goroutine sends) ≤ (receives in the creator outside loops) + k", 0)
+	n := 0
+	for _, fn := range w.ModFns {
+		w.eachInstr(fn, func(in ssa.Instruction) {
+			mc, ok := in.(*ssa.MakeChan)
+			if !ok {
+				return
+			}
+			k, isK := constInt(mc.Size)
+			if !isK {
+				return
+			}
+			// the channel value and the local variable cell it may live in
+			holders := map[ssa.Value]bool{mc: true}
+			if mc.Referrers() != nil {
+				for _, r := range *mc.Referrers() {
+					if st, isSt := r.(*ssa.Store); isSt && st.Val == ssa.Value(mc) {
+						if al, isAl := st.Addr.(*ssa.Alloc); isAl {
+							holders[al] = true
+						} else {
+							return // stored into a field: not local
+						}
+					}
+				}
+			}
+			sends, recvs := 0, 0
+			unbounded, escaped := false, false
+			inLoop := func(i ssa.Instruction) bool { return instrReaches(i, i) }
+			var use func(v ssa.Value, inGo bool, goInLoop bool, d int)
+			use = func(v ssa.Value, inGo bool, goInLoop bool, d int) {
+				if v.Referrers() == nil || d > 4 {
+					return
+				}
+				for _, r := range *v.Referrers() {
+					switch x := r.(type) {
+					case *ssa.UnOp:
+						if x.Op == token.ARROW {
+							if !inGo && !inLoop(x) {
+								recvs++
+							} else if !inGo {
+								recvs += 1 << 20 // a receive loop in the creator drains everything
+							}
+						} else if x.Op == token.MUL {
+							use(x, inGo, goInLoop, d+1) // load of the cell
+						}
+					case *ssa.Send:
+						if x.Chan == v {
+							if inGo {
+								sends++
+								if goInLoop || inLoop(x) {
+									unbounded = true
+								}
+							}
+						} else {
+							escaped = true
+						}
+					case *ssa.Select:
+						for _, st := range x.States {
+							if st.Chan != v {
+								continue
+							}
+							if st.Dir == types.SendOnly && inGo {
+								if x.Blocking {
+									// a select with other ready-able cases may still take another
+									// branch: counted as a send only if it is the sole case
+									if len(x.States) == 1 {
+										sends++
+									}
+								}
+							}
+							if st.Dir == types.RecvOnly && !inGo {
+								if inLoop(x) {
+									recvs += 1 << 20
+								} else {
+									recvs++
+								}
+							}
+						}
+					case *ssa.Store:
+						if x.Val == v {
+							if _, isAl := x.Addr.(*ssa.Alloc); !isAl {
+								escaped = true
+							}
+						}
+					case *ssa.MakeClosure:
+						body, _ := x.Fn.(*ssa.Function)
+						started, loop := false, false
+						if x.Referrers() != nil {
+							for _, u := range *x.Referrers() {
+								if g, isGo := u.(*ssa.Go); isGo {
+									started = true
+									if inLoop(g) {
+										loop = true
+									}
+								}
+							}
+						}
+						if body == nil {
+							escaped = true
+							continue
+						}
+						for i, b := range x.Bindings {
+							if b == v && i < len(body.FreeVars) {
+								if started {
+									use(body.FreeVars[i], true, loop || goInLoop, d+1)
+								} else {
+									use(body.FreeVars[i], inGo, goInLoop, d+1)
+								}
+							}
+						}
+					case *ssa.Call:
+						if b, isB := x.Call.Value.(*ssa.Builtin); isB && (b.Name() == "close" || b.Name() == "len" || b.Name() == "cap") {
+							continue
+						}
+						escaped = true
+					case *ssa.Go, *ssa.Defer, *ssa.Return, *ssa.MakeInterface, *ssa.Phi:
+						escaped = true
+					case *ssa.DebugRef:
+					}
+				}
+			}
+			for h := range holders {
+				use(h, false, false, 0)
+			}
+			if escaped || sends == 0 {
+				return
+			}
+			n++
+			c.Anchor(rule, fname(fn))
+			switch {
+			case unbounded && recvs < 1<<20:
+				c.Bad(rule, fname(fn), "channel", w.instrPos(in), fmt.Sprintf("goroutines started in a loop send on this channel, the creator receives %d time(s) and the buffer holds %d: the goroutines that are not received from block for ever", recvs, k))
+			case int64(sends) > int64(recvs)+k:
+				c.Bad(rule, fname(fn), "channel", w.instrPos(in), fmt.Sprintf("%d goroutine send(s) on this channel against %d receive(s) in the creator and a buffer of %d: once the creator has what it waited for, the remaining sender blocks on its send for ever — one goroutine per use outlives the connection, the allocation and the server (a cancel function or close() would not block)", sends, recvs, k))
+			default:
+				c.OK(rule, fname(fn), "channel", w.instrPos(in), fmt.Sprintf("%d goroutine send(s), %d receive(s) in the creator, buffer %d", sends, recvs, k))
+			}
+		})
+	}
+	if n == 0 {
+		c.Triv(rule, "-", "scan", "-", "no local channel that started goroutines send on")
 	}
 }
